@@ -262,7 +262,8 @@ class Ctx:
         # passed without evaluation (so the shrinker stops), cases that failed before are evaluated truthfully (so
         # Hypothesis' final replay of *its* best example reproduces and no Flaky error arises).  The last failing
         # execution is the final replay, i.e. Hypothesis' minimal example.
-        state = {"failed": False, "best": None, "seen": set(), "shrinks": 0}
+        state = {"failed": False, "best": None, "seen": set(), "shrinks": 0, "t_fail": None}
+        shrink_seconds = self.cfg.get("shrink_s", 60 if self.tier == "quick" else 300)
 
         @hypothesis.seed(self.derived_seed(layer))
         @settings(
@@ -279,13 +280,16 @@ class Ctx:
         def test(case):
             if state["failed"]:
                 state["shrinks"] += 1
-                if state["shrinks"] > shrink_budget and case_hash(case) not in state["seen"]:
+                spent = state["shrinks"] > shrink_budget or time.time() - state["t_fail"] > shrink_seconds
+                if spent and case_hash(case) not in state["seen"]:
                     return
             elif self.expired():
                 self.stats.skipped_deadline += 1
                 return
             failures = self.evaluate(oracle, case, count=not state["failed"])
             if failures:
+                if not state["failed"]:
+                    state["t_fail"] = time.time()
                 state.update(failed=True, best=(case, failures))
                 state["seen"].add(case_hash(case))
                 raise Violation(failures[0][0])
@@ -294,6 +298,14 @@ class Ctx:
             with _no_hypothesis_noise():
                 test()
         except Violation:
+            case, failures = state["best"]
+            self.violation(case, failures)
+        except Exception as e:
+            # an error raised by Hypothesis' shrinker itself (seen: ValueError in intervalsets) after a failure was
+            # found must not lose the finding: report the best failing case seen so far, un-minimised
+            if not state["failed"] or isinstance(e, HarnessError):
+                raise
+            self.stats.notes.append("shrinking aborted by %s: %s" % (type(e).__name__, str(e)[:120]))
             case, failures = state["best"]
             self.violation(case, failures)
         finally:
